@@ -125,6 +125,7 @@ func NewTime(typ types.Type) (Type, bool) {
 	if s := typ.Underlying().String(); s != timeString {
 		return nil, false
 	}
+	typ = types.Unalias(typ) // type T = time.Time
 	name, isNamed := typ.(*types.Named)
 	isDate := isNamed && strings.Contains(strings.ToLower(name.Obj().Name()), "date")
 	isCustomNamed := name.Obj().Pkg().Path() != "time"
